@@ -115,6 +115,7 @@ pub fn run_case_opts<R: Reg>(ops: &[Op], prop: &str, excl: &Exclusions, slot: us
                     Op::CloneTo { .. } | Op::CloneFrom { .. } => &["C01", "C05", "C10"],
                     Op::Query { .. } | Op::EntryQuery { .. } | Op::EntriesQuery { .. } => &["C01", "C05", "C03"],
                     Op::ParQuery { .. } => &["C01", "C05", "C09"],
+                    Op::EntryChain { .. } => &["C01", "C05", "C02"],
                     _ => &["C01", "C05", "C13"],
                 };
                 fail = Some(Fail { props, oracle: "panic", msg: format!("the library panicked during {}: {msg}", op.name()), step: interp.step });
